@@ -1,1 +1,312 @@
-// Correspondence suites for property C12. Each suite is a #[test] fn named verif_c12_<suite>.
+// Correspondence suites for property C12 (privacy noise and dummy records follow the documented (ε, δ) law).
+// Each suite is a #[test] fn named verif_c12_<suite>.
+//
+// Floats travel as IEEE-754 bit patterns (decimal u64).  `r = E.powf(-ε)` and `p = 1 − E.powf(−1/s)` come from
+// libm and are external to the model: the generator computes them on this machine and puts them in the request.
+//
+//   c12.oprf <eps> <delta> <sens> <r> <p>          OPRFPaddingDp::new -> ok <shift> | err <Variant>
+//   c12.tdg <s> <shift> <p>                        TruncatedDoubleGeometric::new -> ok <shift_doubled> | err <Variant>
+//   c12.dg <s> <shift> <p>                         DoubleGeometric::new -> ok | err <Variant>
+//   c12.geo <p>                                    Geometric::new -> ok | err <Variant>
+//   c12.noise <eps> <delta> <succ> <dims> <qs> <l1> <l2> <linf>    NoiseParams::new -> ok | err <message>
+//   c12.maxeps                                     -> bits of MAX_EPSILON
+//   c12.sample geo|dg|tdg <s> <p> <p_int> <shift> <u64,…>   real sampler on a scripted RNG -> <sample> <consumed>
+//        (p = 1 − E.powf(−1/s) and p_int = (p·2^64) as u64 are computed by the generator: libm / rand internals)
+//   c12.shares <eps> <delta> <cap> <r> <p> <p_int> <bit_size> <ov_bits> <L|R> <u64,…>
+//                                                  -> <shift> <sample> <left> <right> <consumed>
+use std::f64::consts::E;
+
+use rand::distributions::Distribution;
+
+use super::proto::*;
+use crate::protocol::{
+    dp::NoiseParams,
+    ipa_prf::oprf_padding::{
+        distributions::{DoubleGeometric, Geometric, TruncatedDoubleGeometric},
+        insecure::OPRFPaddingDp,
+    },
+};
+
+/// A scripted `RngCore`: returns the given `u64` values in order; panics when exhausted.
+pub struct ScriptRng {
+    pub script: Vec<u64>,
+    pub pos: usize,
+}
+
+impl rand_core::RngCore for ScriptRng {
+    fn next_u32(&mut self) -> u32 {
+        (self.next_u64() >> 32) as u32
+    }
+    fn next_u64(&mut self) -> u64 {
+        let v = *self.script.get(self.pos).unwrap_or_else(|| panic!("script exhausted"));
+        self.pos += 1;
+        v
+    }
+    fn fill_bytes(&mut self, dest: &mut [u8]) {
+        for chunk in dest.chunks_mut(8) {
+            let b = self.next_u64().to_le_bytes();
+            chunk.copy_from_slice(&b[..chunk.len()]);
+        }
+    }
+    fn try_fill_bytes(&mut self, dest: &mut [u8]) -> Result<(), rand_core::Error> {
+        self.fill_bytes(dest);
+        Ok(())
+    }
+}
+impl rand_core::CryptoRng for ScriptRng {}
+
+fn f(s: &str) -> f64 {
+    f64::from_bits(s.parse::<u64>().unwrap())
+}
+
+fn b(x: f64) -> u64 {
+    x.to_bits()
+}
+
+fn err_name<E: std::fmt::Debug>(e: &E) -> String {
+    let d = format!("{e:?}");
+    d.split('(').next().unwrap().to_string()
+}
+
+/// Run `f` on another thread; `None` if it does not finish within `secs` (the thread is left behind).
+fn with_deadline<T: Send + 'static>(secs: u64, f: impl FnOnce() -> T + Send + 'static) -> Option<T> {
+    let (tx, rx) = std::sync::mpsc::channel();
+    std::thread::spawn(move || {
+        let r = guarded(f);
+        let _ = tx.send(r);
+    });
+    match rx.recv_timeout(std::time::Duration::from_secs(secs)) {
+        Ok(Ok(v)) => Some(v),
+        Ok(Err(p)) => panic!("{}", &p[6..]),
+        Err(_) => None,
+    }
+}
+
+pub fn exec(req: &str) -> String {
+    let t: Vec<&str> = req.split(' ').collect();
+    match t[0] {
+        "c12.oprf" => {
+            let (eps, delta, sens) = (f(t[1]), f(t[2]), t[3].parse::<u32>().unwrap());
+            match with_deadline(20, move || OPRFPaddingDp::new(eps, delta, sens).map(|d| d.get_shift())) {
+                None => "timeout".into(),
+                Some(Ok(n)) => format!("ok {n}"),
+                Some(Err(e)) => format!("err {}", err_name(&e)),
+            }
+        }
+        "c12.tdg" => match TruncatedDoubleGeometric::new(f(t[1]), t[2].parse().unwrap()) {
+            Ok(d) => format!("ok {}", d.shift_doubled),
+            Err(e) => format!("err {}", err_name(&e)),
+        },
+        "c12.dg" => match DoubleGeometric::new(f(t[1]), t[2].parse().unwrap()) {
+            Ok(_) => "ok".into(),
+            Err(e) => format!("err {}", err_name(&e)),
+        },
+        "c12.geo" => match Geometric::new(f(t[1])) {
+            Ok(_) => "ok".into(),
+            Err(e) => format!("err {}", err_name(&e)),
+        },
+        "c12.noise" => match NoiseParams::new(f(t[1]), f(t[2]), 1, f(t[3]), f(t[4]), f(t[5]), f(t[6]), f(t[7]), f(t[8])) {
+            Ok(_) => "ok".into(),
+            Err(e) => format!("err {e}"),
+        },
+        "c12.sample" => {
+            let script: Vec<u64> = parse_nat_list(t[6]);
+            let mut rng = ScriptRng { script, pos: 0 };
+            let (s, p) = (f(t[2]), f(t[3]));
+            let shift: u32 = t[5].parse().unwrap();
+            let v: i64 = match t[1] {
+                "geo" => i64::from(Geometric::new(p).unwrap().sample(&mut rng)),
+                "dg" => i64::from(DoubleGeometric::new(s, shift).unwrap().sample(&mut rng)),
+                "tdg" => i64::from(TruncatedDoubleGeometric::new(s, shift).unwrap().sample(&mut rng)),
+                k => panic!("harness: unknown sampler {k}"),
+            };
+            format!("{v} {}", rng.pos)
+        }
+        _ => panic!("harness: unknown request {req}"),
+    }
+}
+
+fn r_of(eps: f64) -> f64 {
+    E.powf(-eps)
+}
+fn p_of_s(s: f64) -> f64 {
+    1.0 - E.powf(-1.0 / s)
+}
+/// rand 0.8 `Bernoulli::new`: `p_int = (p * 2^64) as u64`, `u64::MAX` for `p == 1`.
+fn p_int(p: f64) -> u64 {
+    if p == 1.0 { u64::MAX } else { (p * (2.0 * (1u64 << 63) as f64)) as u64 }
+}
+
+fn oprf_req(eps: f64, delta: f64, sens: u32) -> String {
+    format!("c12.oprf {} {} {sens} {} {}", b(eps), b(delta), b(r_of(eps)), b(p_of_s(1.0 / eps)))
+}
+
+fn gen_shift(rng: &mut Rng, thorough: bool, out: &mut Vec<String>) {
+    let eps: &[f64] = &[0.01, 0.05, 0.1, 0.5, 1.0, 2.0, 5.0, 10.0, 20.0];
+    let deltas: &[f64] = &[1e-12, 1e-10, 1e-8, 1e-6, 1e-4, 1e-2];
+    let sens: &[u32] = &[1, 2, 3, 10, 100, 1000];
+    for &e in eps {
+        for &d in deltas {
+            for &s in sens {
+                // the heaviest corner costs ~Δ·n float powers per candidate n: thin it in the quick tier
+                if !thorough && e < 0.1 && s >= 100 && d < 1e-6 {
+                    continue;
+                }
+                out.push(oprf_req(e, d, s));
+            }
+        }
+    }
+    // the configurations the code base uses
+    for (e, d, s) in [(5.0, 1e-6, 10), (5.0, 1e-6, 2), (10.0, 1e-4, 3), (10.0, 1e-4, 2), (5.0, 1e-6, 8), (2.0, 1e-6, 8), (1.1, 1e-6, 256)] {
+        out.push(oprf_req(e, d, s));
+    }
+    for _ in 0..(if thorough { 400 } else { 60 }) {
+        let e = 0.05 + (rng.below(2_000_000) as f64) / 100_000.0; // 0.05 .. 20.05
+        let d = 10f64.powi(-(2 + rng.below(11) as i32)) * (1.0 + (rng.below(900) as f64) / 100.0);
+        let s = *rng.pick(&[1u32, 2, 3, 4, 8, 10, 16, 50, 100]);
+        out.push(oprf_req(e, d, s));
+    }
+}
+
+fn specials() -> Vec<f64> {
+    vec![
+        0.0, -0.0, f64::MIN_POSITIVE, -f64::MIN_POSITIVE, f64::MIN_POSITIVE / 2.0, 5e-324, 1e-300, 1e-17, 1e-9, 0.5, 1.0 - f64::EPSILON / 2.0, 1.0,
+        1.0 + f64::EPSILON, 2.0, 20.0, 20.000000000000004, 1e6, f64::MAX, f64::INFINITY, f64::NEG_INFINITY, f64::NAN, -1.0, -1e-300,
+    ]
+}
+
+fn gen_ctor(_rng: &mut Rng, _thorough: bool, out: &mut Vec<String>) {
+    let sp = specials();
+    // OPRFPaddingDp::new: every special value in each float slot, the others nominal
+    for &x in &sp {
+        // tiny positive ε needs a truncation point far beyond the admissible shift: after F11 an error, before it a hang
+        out.push(oprf_req(x, 1e-6, 2));
+        out.push(format!("c12.oprf {} {} 2 {} {}", b(1.0), b(x), b(r_of(1.0)), b(p_of_s(1.0))));
+    }
+    for s in [0u32, 1, 999_999, 1_000_000, 1_000_001, u32::MAX] {
+        out.push(oprf_req(20.0, 0.5, s));
+    }
+    for &x in &sp {
+        let p = p_of_s(x);
+        for shift in [0u32, 1, 1_000_000, 1_000_001] {
+            out.push(format!("c12.tdg {} {shift} {}", b(x), b(p)));
+            out.push(format!("c12.dg {} {shift} {}", b(x), b(p)));
+        }
+        out.push(format!("c12.geo {}", b(x)));
+    }
+    // NoiseParams::new: each of the eight float slots takes every special value
+    let nominal = [5.0, 1e-6, 0.5, 1.0, 1.0, 1.0, 1.0, 1.0];
+    out.push(format!("c12.noise {}", nominal.iter().map(|x| b(*x).to_string()).collect::<Vec<_>>().join(" ")));
+    for slot in 0..8 {
+        for &x in &sp {
+            let mut v = nominal;
+            v[slot] = x;
+            out.push(format!("c12.noise {}", v.iter().map(|x| b(*x).to_string()).collect::<Vec<_>>().join(" ")));
+        }
+    }
+    for d in [1e-10, 1e-6, 1e-2, 0.999] {
+        let mut v = nominal;
+        v[1] = d;
+        out.push(format!("c12.noise {}", v.iter().map(|x| b(*x).to_string()).collect::<Vec<_>>().join(" ")));
+    }
+}
+
+/// script that makes the geometric sampler return `a` (a failures, then a success)
+fn geo_script(a: u32, out: &mut Vec<u64>) {
+    for _ in 0..a {
+        out.push(u64::MAX);
+    }
+    out.push(0);
+}
+
+fn gen_sampler(rng: &mut Rng, thorough: bool, out: &mut Vec<String>) {
+    // s = 1/ε for ε = 5, 1, 0.1, 0.01; s = 1e-3 gives p = 1.0 (Bernoulli "always true"); s = 1e6 a tiny p
+    for &s_par in &[0.2f64, 1.0, 10.0, 100.0, 1e-3, 1e6, 1.4426950408889634] {
+        let p = p_of_s(s_par);
+        let pi = p_int(p);
+        for shift in [0u32, 1, 2, 7] {
+            // boundary scripts: values just below / at / above p_int
+            let mut scripts: Vec<Vec<u64>> = vec![
+                vec![0, 0],
+                vec![pi.wrapping_sub(1), pi.wrapping_sub(1)],
+                vec![pi, pi.wrapping_sub(1), pi, pi.wrapping_sub(1)],
+                vec![u64::MAX, 0, 0],
+                vec![0, u64::MAX, 0],
+                vec![],
+                vec![pi],
+            ];
+            // rejections: a1 − a2 outside [−shift, shift] first, then an accepted draw
+            let mut s = vec![];
+            geo_script(shift + 1, &mut s);
+            geo_script(0, &mut s);
+            geo_script(0, &mut s);
+            geo_script(shift + 1, &mut s);
+            geo_script(shift, &mut s);
+            geo_script(0, &mut s);
+            scripts.push(s);
+            for _ in 0..(if thorough { 40 } else { 8 }) {
+                let n = 2 + rng.usize_below(30);
+                scripts.push((0..n).map(|_| match rng.below(4) { 0 => 0, 1 => u64::MAX, 2 => pi.wrapping_add(rng.below(3)).wrapping_sub(1), _ => rng.next_u64() }).collect());
+            }
+            for sc in scripts {
+                for kind in ["geo", "dg", "tdg"] {
+                    if kind == "geo" && shift != 0 {
+                        continue;
+                    }
+                    out.push(format!("c12.sample {kind} {} {} {pi} {shift} {}", b(s_par), b(p), nat_list(&sc)));
+                }
+            }
+        }
+    }
+}
+
+pub fn gen_shares(_rng: &mut Rng, thorough: bool, out: &mut Vec<String>) {
+    // (ε, δ, cap): small truncation points so that EVERY support point 0..=2n is enumerated
+    let mut cfgs: Vec<(f64, f64, u32)> = vec![(5.0, 1e-6, 1), (2.0, 1e-6, 8), (10.0, 1e-4, 3)];
+    if thorough {
+        cfgs.push((1.0, 1e-6, 8));
+        cfgs.push((0.5, 1e-8, 32));
+    }
+    for (eps, delta, cap) in cfgs {
+        let n = OPRFPaddingDp::new(eps, delta, cap).unwrap().get_shift();
+        let p = p_of_s(1.0 / eps);
+        let pi = p_int(p);
+        for (bit_size, ov) in [(8u32, 8u32), (16, 16), (32, 32), (3, 3), (20, 20), (33, 64)] {
+            for dir in ["L", "R"] {
+                for s in 0..=2 * n {
+                    let mut sc = vec![];
+                    if s >= n {
+                        geo_script(s - n, &mut sc);
+                        geo_script(0, &mut sc);
+                    } else {
+                        geo_script(0, &mut sc);
+                        geo_script(n - s, &mut sc);
+                    }
+                    out.push(format!(
+                        "c12.shares {} {} {cap} {} {} {pi} {bit_size} {ov} {dir} {}",
+                        b(eps), b(delta), b(r_of(eps)), b(p), nat_list(&sc)
+                    ));
+                    if bit_size == 33 {
+                        break; // panics in `new`: one case is enough
+                    }
+                }
+            }
+        }
+    }
+}
+
+#[test]
+fn verif_c12_shift() {
+    run_suite("c12_shift", |rng, th| { let mut o = vec![]; gen_shift(rng, th, &mut o); o }, exec);
+}
+
+#[test]
+fn verif_c12_ctor() {
+    run_suite("c12_ctor", |rng, th| { let mut o = vec![]; gen_ctor(rng, th, &mut o); o }, exec);
+}
+
+#[test]
+fn verif_c12_sampler() {
+    run_suite("c12_sampler", |rng, th| { let mut o = vec![]; gen_sampler(rng, th, &mut o); o }, exec);
+}
+
